@@ -168,6 +168,42 @@ def split_rejoin_probe(ctx, mon, v, rng):
             ctx.nontriv(('sr', o.key()))
 
 
+def seam_workshop_resized(ctx, mon, rng, L):
+    """left operands whose text was cut or grown after formatting (assign_str, in-place clip / strip / pad): a style
+    that began exactly where the text now ends, or ended where it used to end, must not reach the right operand"""
+    with mon.quiet():
+        a = L.AnsiString('abcdef')
+        for _ in range(rng.choice([1, 2])):
+            st = rng.choice([0, 2, 3, 4])
+            a.apply_formatting(rng.choice(['red', 'bold', 'bg_blue', 'italic']), st, rng.choice([st + 1, st + 2, None]),
+                               topmost=rng.random() < 0.8)
+        k = rng.choice([0, 2, 3, 4, 6])
+        how = rng.randrange(5)
+        if how == 0:
+            a.assign_str('abcdef'[:k])
+        elif how == 1:
+            a.assign_str('abcdefgh')
+        elif how == 2:
+            a.clip(0, k, inplace=True)
+        elif how == 3:
+            a.assign_str('')
+        else:
+            a.rstrip('def', inplace=True)
+        left = L.AnsiStr(a) if rng.random() < 0.25 else a
+        right = rng.choice(['xyz', L.AnsiString('xyz', 'underline'), L.AnsiStr('xy', 'red')])
+    ctx.sig('seam-workshop:resized')
+    try:
+        r = rng.random()
+        if r < 0.5:
+            left + right
+        elif r < 0.75 and isinstance(left, L.AnsiString):
+            left += right
+        else:
+            (L.AnsiString if rng.random() < 0.5 else L.AnsiStr).join(left, right)
+    except Exception:
+        pass
+
+
 def seam_workshop_duplicates(ctx, mon, rng, L):
     """the seam at which equal settings are carried over, with *equal-valued duplicates* in the stack: the left operand
     is a slice whose settings (x, y, x of one effect group) stop together at its end - in an order that differs from
@@ -212,6 +248,8 @@ def seam_workshop(ctx, mon, rng, L):
     some permutation"""
     if rng.random() < 0.4:
         return seam_workshop_duplicates(ctx, mon, rng, L)
+    if rng.random() < 0.25:
+        return seam_workshop_resized(ctx, mon, rng, L)
     groups = rng.sample(sorted(GROUP_CODES), rng.choice([1, 1, 2]))
     pool = []
     for g in groups:
